@@ -55,3 +55,40 @@ Proof.
   - induction db as [|p r IH]; [reflexivity|]. cbn [existsb filter]. destruct (hit E q m p); [reflexivity|exact IH].
   - apply stable_sort_perm.
 Qed.
+
+(* ---- the key strings of select() ---------------------------------------------------------- *)
+Definition selkey_ok (k : selkey) : Prop := match k with SKTag t => t <> [] | SKField f => f <> [] | _ => True end.
+
+Lemma parse_print_selkey : forall k, selkey_ok k -> parse_selkey (print_selkey k) = Some k.
+Proof.
+  intros [| |t|f] H; try reflexivity; cbn in H; destruct t as [|c t] || destruct f as [|c f]; try congruence; reflexivity.
+Qed.
+
+Lemma str_prefix_split : forall p s, str_prefix p s = true -> s = p ++ skipn (length p) s.
+Proof.
+  induction p as [|a p IH]; intros s H; [reflexivity|]. destruct s as [|b s]; [discriminate|]. cbn [str_prefix] in H.
+  apply andb_prop in H. destruct H as [Hab Hp]. apply N.eqb_eq in Hab. subst b. cbn [length skipn app]. f_equal. now apply IH.
+Qed.
+Lemma skipn_nonempty {A} n (l : list A) : n < length l -> skipn n l <> [].
+Proof. intros H E. apply (f_equal (@length A)) in E. rewrite skipn_length in E. cbn in E. lia. Qed.
+
+Lemma parse_selkey_sound : forall s k, parse_selkey s = Some k -> print_selkey k = s /\ selkey_ok k.
+Proof.
+  intros s k. unfold parse_selkey.
+  destruct (str_eqb s s_time) eqn:E1.
+  { intros H; inversion H; subst. apply str_eqb_eq in E1. now split. }
+  destruct (str_eqb s s_measurement) eqn:E2.
+  { intros H; inversion H; subst. apply str_eqb_eq in E2. now split. }
+  destruct (str_prefix s_tags_dot s && Nat.ltb 5 (length s)) eqn:E3.
+  { intros H; injection H as <-. apply andb_prop in E3. destruct E3 as [P L]. apply Nat.ltb_lt in L.
+    split; [cbn [print_selkey]; symmetry; exact (str_prefix_split s_tags_dot s P) | unfold selkey_ok; now apply (skipn_nonempty 5)]. }
+  destruct (str_prefix s_fields_dot s && Nat.ltb 7 (length s)) eqn:E4; [|discriminate].
+  intros H; injection H as <-. apply andb_prop in E4. destruct E4 as [P L]. apply Nat.ltb_lt in L.
+  split; [cbn [print_selkey]; symmetry; exact (str_prefix_split s_fields_dot s P) | unfold selkey_ok; now apply (skipn_nonempty 7)].
+Qed.
+
+Lemma parse_print_selkeys : forall ks, Forall selkey_ok ks -> parse_selkeys (map print_selkey ks) = Some ks.
+Proof.
+  induction ks as [|k ks IH]; intros H; [reflexivity|]. inversion H; subst. cbn [map parse_selkeys].
+  now rewrite parse_print_selkey, IH.
+Qed.
